@@ -122,11 +122,13 @@ PROPS["C04"] = {
         {"test": "^TestRegress", "timeout": 120},
         {"test": "^TestResponderRetransmits$", "checks": 4000, "steps": 80, "timeout": 300},
         {"test": "^TestResponderConcurrent$", "checks": 150, "timeout": 300},
+        {"test": "^TestResponderUnbindDuringAnswer$", "checks": 1500, "timeout": 300},
     ],
     "thorough": [
         {"test": "^TestRegress", "timeout": 120},
         {"test": "^TestResponderRetransmits$", "checks": 30000, "steps": 100, "shards": 8, "timeout": 900},
         {"test": "^TestResponderConcurrent$", "checks": 400, "shards": 8, "race": True, "timeout": 900},
+        {"test": "^TestResponderUnbindDuringAnswer$", "checks": 20000, "shards": 4, "timeout": 900},
     ],
 }
 
